@@ -32,7 +32,6 @@ def run(ctx):
             ("PipeConn_live.cfg", "design, liveness arrived ~> done (fair, no constraint)", {})]
     if T:
         cfgs += [("PipeConn_design2u.cfg", "design, 2 callers x 1 call, datagram/resend", {}),
-                 ("PipeConn_design2full.cfg", "design, 2 callers, stream+datagram, limits 1-2, all budgets", {"timeout": 1200}),
                  ("PipeConn_design3.cfg", "design, 3 callers x 1 call", {"timeout": 1500})]
     pc.leg_a(ctx, cfgs, [("PipeConn_dev_d1.cfg", "NoLoss"), ("PipeConn_dev_d2.cfg", "NoLoss")])
 
@@ -79,7 +78,7 @@ def run(ctx):
 
     # ---- leg C
     rej = pc.validate(ctx, recs, TRACE_CFG, "C02", max_reject=5)
-    by_sig = pc.report(ctx, recs, rej)
+    by_sig = pc.report(ctx, recs, rej, TRACE_CFG)
     st = pc.steering_stats(ctx, recs)
     ctx.cov["evaluations"] = len(recs)
     nontriv = set()
